@@ -177,3 +177,48 @@ def r53_rule_interface(ctx):
                       '%s reads rule.%s, which %s (MRO: %s) does not define: AttributeError when an election is built or rendered with rule %s'
                       % (f0.qualname, attr, ri.cls.qualname, ' -> '.join(k.name for k in ri.cls.mro()), '/'.join(ri.names)), nontrivial=False)
     ctx.floor(R, 'rule attribute x rule class pairs', n, 40)
+
+
+def r56_index_in_range(ctx):
+    """`for i in range(len(xs) - k)` loops of the counting rules never index past the end: every `xs[i + j]` in the body has j <= k - 1
+    (and `xs[i]` needs k >= 0).  An IndexError there ends the count without a result."""
+    R = 'R56'
+    n = 0
+
+    def linear(e, var):
+        """e == var + j  -> j ; None otherwise"""
+        if isinstance(e, ast.Name) and e.id == var:
+            return 0
+        if isinstance(e, ast.BinOp) and isinstance(e.op, (ast.Add, ast.Sub)) and isinstance(e.right, ast.Constant) and isinstance(e.right.value, int):
+            b = linear(e.left, var)
+            if b is not None:
+                return b + (e.right.value if isinstance(e.op, ast.Add) else -e.right.value)
+        if isinstance(e, ast.BinOp) and isinstance(e.op, ast.Add) and isinstance(e.left, ast.Constant) and isinstance(e.left.value, int):
+            b = linear(e.right, var)
+            if b is not None:
+                return b + e.left.value
+        return None
+    for ri in rules(ctx):
+        for g in all_funcs_of(ri.count):
+            for loop in [x for x in g.own_nodes() if isinstance(x, ast.For) and isinstance(x.target, ast.Name) and isinstance(x.iter, ast.Call)
+                         and unparse(x.iter.func) == 'range' and len(x.iter.args) == 1]:
+                b = loop.iter.args[0]
+                k = 0
+                if isinstance(b, ast.BinOp) and isinstance(b.op, (ast.Sub, ast.Add)) and isinstance(b.right, ast.Constant) and isinstance(b.right.value, int):
+                    k = b.right.value if isinstance(b.op, ast.Sub) else -b.right.value
+                    b = b.left
+                if not (isinstance(b, ast.Call) and unparse(b.func) == 'len' and len(b.args) == 1 and isinstance(b.args[0], ast.Name)):
+                    continue
+                xs = b.args[0].id
+                var = loop.target.id
+                for sub in ast.walk(loop):
+                    if isinstance(sub, ast.Subscript) and isinstance(sub.value, ast.Name) and sub.value.id == xs and not isinstance(sub.slice, ast.Slice):
+                        j = linear(sub.slice, var)
+                        if j is None:
+                            continue
+                        n += 1
+                        # i runs to len - k - 1, so i + j <= len - 1 exactly when j <= k
+                        ctx.check(j <= k, R, sub, g, 'an index into `%s` inside `for %s in range(len(%s) - %d)` stays inside the list' % (xs, var, xs, k),
+                                  '%s[%s + %d] with %s <= len(%s) - %d' % (xs, var, j, var, xs, k + 1),
+                                  '`%s` can reach index len(%s) %+d: IndexError ends the count' % (unparse(sub), xs, j - k), nontrivial=False)
+    ctx.floor(R, 'indexed range loops', n, 4)
